@@ -640,8 +640,12 @@ class UnitsContainer(Mapping[str, Scalar]):
             raise TypeError(err.format(type(other)))
 
         new = self.copy()
-        for key, value in new._d.items():
-            new._d[key] *= other
+        for key, value in list(new._d.items()):
+            value = value * other
+            if value == 0:
+                del new._d[key]
+            else:
+                new._d[key] = value
         new._hash = None
         return new
 
